@@ -196,7 +196,7 @@ PROPS["C01"] = {
     "assumptions": COMMON_ASSUME + ['std::fmt::format stubbed (messages not compared)', 'core::str::from_utf8 replaced by a byte-wise model checked against std (c19_utf8_model_vs_std)', 'forward_to_next_storage_header replaced by its specification (first occurrence) in whole-message storage-mode harnesses; the real function is checked against that specification in C06', 'ids, names, units and string contents are literals in whole-message harnesses (whether a byte is NUL is control for the parser); arbitrary contents are decided in C19 / c02d'],
     "trusted_base": ['reference encoder kani/src/refcodec.rs + shapes.rs (reading of the AUTOSAR layout)'],
     "harnesses": [H("c01::" + n, "quick", 900) for n in ["c01_p_nonverbose_min", "c01_p_nonverbose_ext_storage_be", "c01_p_control_le",
-        "c01_p_verbose_bool_le", "c01_p_verbose_u32_named_be_storage", "c01_p_verbose_string_le", "c01_p_nettrace_le", "c01_p_nettrace_be"]]
+        "c01_p_verbose_bool_le", "c01_p_verbose_u32_named_be_storage", "c01_p_verbose_string_le", "c01_p_nettrace_le", "c01_p_nettrace_be", "c01_p_nettrace_empty", "c01_p_verbose_empty"]]
                  + [H("c01::c01_p_verbose_two_args_u8_bool", "thorough", 3600, mem_gb=40), H("c01::c01_p_nettrace_two_slices", "thorough", 3600, mem_gb=40)]
                  + [H("c14::c14_msin_via_extended_header_parse", "quick", 300, what="every MSIN code (incl. reserved message types) is accepted and decoded by the extended-header parser"),
                     H("c14::c14_msin_via_extended_header_write", "quick", 300, what="every message type value is written as its MSIN code")]
@@ -286,7 +286,7 @@ PROPS["C07"] = {
     "assumptions": COMMON_ASSUME + ['std::fmt::format stubbed (messages not compared)', 'core::str::from_utf8 replaced by a byte-wise model checked against std (c19_utf8_model_vs_std)'],
     "trusted_base": ['std::io::BufReader, Read::read_exact'],
     "harnesses": [H("c07::" + n, "quick", 1500) for n in ["c07_any_stream_no_storage_6", "c07_first_of_two_messages_any_schedule",
-                  "c07_read_message_equals_slice_parse"]]
+                  "c07_read_message_equals_slice_parse", "c07_new_reserves_largest_declarable_message"]]
                  + [H("c07::c07_truncated_tail_any_schedule", "thorough", 3600, mem_gb=30), H("c07::c07_two_messages_any_schedule", "thorough", 5400, mem_gb=40), H("c07::c07_default_capacity_any_declared_length", "thorough", 5400, mem_gb=40)],
 }
 
@@ -300,21 +300,29 @@ PROPS["C15"] = {
     "assumptions": COMMON_ASSUME + ['ids, names, units and string contents are literals in whole-message harnesses (whether a byte is NUL is control for the parser); arbitrary contents are decided in C19 / c02d'],
     "trusted_base": [],
     "harnesses": [H("c15::" + n, "quick", 900) for n in ["c15_new_nonverbose_noext", "c15_new_nonverbose_ext_be", "c15_new_control",
-                  "c15_new_nettrace_le", "c15_new_nettrace_be", "c15_valid_rejects_mismatched_values"]]
+                  "c15_new_nettrace_le", "c15_new_nettrace_be", "c15_new_verbose_empty", "c15_new_nettrace_empty", "c15_valid_rejects_mismatched_values"]]
                  + [H(e["name"], e["tier"], 900, what="Argument::len == serialised length (and bytes == reference)") for e in _cat["w_arg"]],
 }
 
+_c16_wp_quick = ["c02w::c02w_payload_nonverbose_control", "c02w::c02w_payload_nettrace_le", "c02w::c02w_payload_nettrace_be", "c02w::c02w_extended_header_id4",
+                 "c02w::c02w_standard_header_c7", "c02w::c02w_storage_header_id4", "c14::c14_typeinfo_all_words", "c14::c14_msin_via_extended_header_parse",
+                 "c14::c14_msin_via_extended_header_write", "c01::c01_p_control_le", "c01::c01_p_nettrace_be", "c01::c01_p_nonverbose_ext_storage_be",
+                 "gen_args::w_arg_bool_v", "gen_args::p_arg_bool_v", "gen_args::w_arg_u16", "gen_args::p_arg_u16", "gen_args::w_arg_string_v", "gen_args::p_arg_string_v",
+                 "gen_args::w_arg_raw", "gen_args::p_arg_raw", "gen_args::w_arg_ufix32_v", "gen_args::p_arg_ufix32_v", "gen_args::w_arg_f32", "gen_args::p_arg_f32"]
 PROPS["C16"] = {
     "level": "model_checking",
-    "level_text": 'Compositional: the writer emits exactly the canonical reference encoding of a message value (W, C02) and the parser maps it back (P, C01); what remains is decided here: non-canonical encodings the parser accepts (bool with TYLE 1 / 15, reserved and STRU type-info bits, FIXP on kinds that cannot be fixed point, id bytes after the first NUL) parse to the same message value as their canonical form, for all data. Codes outside the named ranges (sub-types, string codings) are decided for all 2^8 / 2^32 codes in C14.',
-    "level_note": 'No single bytes -> message -> bytes -> message query (does not finish).',
-    "functions": ['parse::dlt_message', 'TypeInfo::try_from', 'parse::parse_ecu_id'],
-    "bounds": '5 dialect variants on 4 shapes',
-    "outside": 'dialect variants outside the list',
-    "assumptions": COMMON_ASSUME + ['std::fmt::format stubbed (messages not compared)', 'core::str::from_utf8 replaced by a byte-wise model checked against std (c19_utf8_model_vs_std)', 'ids, names, units and string contents are literals in whole-message harnesses (whether a byte is NUL is control for the parser); arbitrary contents are decided in C19 / c02d'],
-    "trusted_base": [],
+    "level_text": 'Compositional, every part decided by the solver in this check: (W) the writer units emit exactly the canonical reference encoding of every message value the parser can produce - including the non-canonical values it normalises into (ControlType::Unknown(n) for every service id, every MSIN code, reserved string codings) - and (P) the parser maps the canonical encoding back to that value, for all data; (D) non-canonical encodings the parser accepts (bool with TYLE 1 / 15, reserved and STRU type-info bits, FIXP on kinds that cannot be fixed point, id bytes after the first NUL) parse to the same message value as their canonical form; type-info words and MSIN codes are decided for all 2^32 / 2^8 codes. W and P and D give bytes -> message -> bytes -> message stability by substitution.',
+    "level_note": 'No single bytes -> message -> bytes -> message query: re-serialising a PARSED message inside one harness (c16_rt_*, kept in the source) exceeds memory because the parsed payload loses its concrete lengths when moved through Result / enum values, which makes the writer allocation sizes symbolic (measured: > 16 GB, 8 min).',
+    "functions": ['parse::dlt_message', 'TypeInfo::try_from', 'parse::parse_ecu_id', 'PayloadContent::as_bytes', 'ExtendedHeader::as_bytes', 'StandardHeader::as_bytes', 'StorageHeader::as_bytes', 'Argument::as_bytes::<BE|LE>', 'ControlType::value'],
+    "bounds": '5 dialect variants on 4 shapes; W / P: payload kinds, header units and 6 (quick) / 80 (thorough) argument layouts of the catalogue',
+    "outside": 'dialect variants outside the list; shapes outside the catalogue',
+    "assumptions": COMMON_ASSUME + ['std::fmt::format stubbed (messages not compared)', 'core::str::from_utf8 replaced by a byte-wise model checked against std (c19_utf8_model_vs_std)', 'ids, names, units and string contents are literals in whole-message harnesses (whether a byte is NUL is control for the parser); arbitrary contents are decided in C19 / c02d', 'forward_to_next_storage_header replaced by its specification (first occurrence) in whole-message storage-mode harnesses; the real function is checked against that specification in C06'],
+    "trusted_base": ['reference encoder kani/src/refcodec.rs + shapes.rs (reading of the AUTOSAR layout)'],
     "harnesses": [H("c16::" + n, "quick", 900) for n in ["c16_bool_tyle_1", "c16_bool_tyle_15", "c16_u32_reserved_bits", "c16_raw_fixp_flag", "c16_id_bytes_after_nul"]]
-                 + [H("c16::" + n, "thorough", 1800) for n in ["c16_rt_control_le", "c16_rt_nonverbose_be", "c16_rt_nettrace_be", "c16_rt_verbose_bool_le", "c16_rt_verbose_u16_be"]],
+                 + [H(n, "quick", 900, what="W / P half of the composition (shared with C01 / C02 / C14)") for n in _c16_wp_quick]
+                 + [H(e["name"], "thorough", 900) for e in _cat["w_arg"] + _cat["p_arg"] if e["name"] not in _c16_wp_quick]
+                 + [H("c02w::" + n, "thorough", 900) for n in _wq + _wt if "c02w::" + n not in _c16_wp_quick]
+                 + [H("c01::" + n, "thorough", 900) for n in ["c01_p_nonverbose_min", "c01_p_verbose_bool_le", "c01_p_verbose_u32_named_be_storage", "c01_p_verbose_string_le", "c01_p_nettrace_le", "c01_p_nettrace_empty", "c01_p_verbose_empty"]],
 }
 
 PROPS["C10"] = {
@@ -327,7 +335,7 @@ PROPS["C10"] = {
     "assumptions": COMMON_ASSUME + ['std::fmt::format stubbed (messages not compared)', 'core::str::from_utf8 replaced by a byte-wise model checked against std (c19_utf8_model_vs_std)'],
     "trusted_base": ['rustc_hash / hashbrown'],
     "harnesses": [H("c10::" + n, "quick", 900) for n in ["c10_level_distribution_new_buckets", "c10_level_distribution_merge_is_sum", "c10_merge_00",
-                  "c10_merge_12", "c10_merge_11", "c10_merge_03", "c10_merge_ecu_only_part", "c10_scan_visits_each_message_once"]]
+                  "c10_merge_12", "c10_merge_11", "c10_merge_03", "c10_merge_ecu_only_part", "c10_scan_visits_each_message_once", "c10_collector_s0", "c10_collector_s1", "c10_collector_s2", "c10_collector_s3", "c10_collector_s4"]]
                  + [H("c10::" + n, "thorough", 3600, mem_gb=30) for n in ["c10_merge_41", "c10_merge_tables_independent", "c10_merge_30"]],
 }
 
